@@ -128,3 +128,337 @@ Proof.
   intros Ht. rewrite existsb_app in Ht. apply orb_false_elim in Ht as [Ht _].
   pose proof (pool_exact astr s0 pre). rewrite (run_donated_none astr pre s0 Ht) in H. lia.
 Qed.
+
+(* ------------------------------------------------------------------ *)
+(* 2. maturation: paid exactly once, at the maturity height            *)
+(* ------------------------------------------------------------------ *)
+
+Lemma collides_false scan h (p : pmap) : collides scan h p = false ->
+  map_Forall (fun key _ => scan h key.1 key.2 && negb (key.1 =? h)%N = false) p.
+Proof.
+  unfold collides. intros H. apply negb_false_iff in H. by apply bool_decide_eq_true in H.
+Qed.
+
+Lemma collide_fold_id scan h init (m : pmap) :
+  map_Forall (fun key _ => scan h key.1 key.2 && negb (key.1 =? h)%N = false) m ->
+  map_fold (collide_step scan h) init m = init.
+Proof.
+  apply (map_fold_ind (fun r m =>
+    map_Forall (fun key _ => scan h key.1 key.2 && negb (key.1 =? h)%N = false) m -> r = init)).
+  - done.
+  - intros [n a] x m' r Hnone IH HF. apply map_Forall_insert in HF as [Hc HF]; [|done].
+    simpl in Hc. rewrite (IH HF). unfold collide_step. rewrite Hc. done.
+Qed.
+
+Lemma mature_nocoll scan h b p : collides scan h p = false ->
+  mature scan h b p = (fun a => b a + pget p h a, own_zero h p).
+Proof.
+  intros H. unfold mature. rewrite collide_fold_id; [done | by apply collides_false].
+Qed.
+
+Lemma pget_own_zero h p n a : pget (own_zero h p) n a = if (n =? h)%N then 0 else pget p n a.
+Proof.
+  unfold pget, own_zero, pmap in *. rewrite map_lookup_imap.
+  destruct (p !! (n, a)); simpl; by destruct (n =? h)%N.
+Qed.
+
+Lemma pget_insert (p : pmap) n a v n' a' :
+  pget (<[(n, a) := v]> p) n' a' = if ((n' =? n) && (a' =? a))%N then v else pget p n' a'.
+Proof.
+  unfold pget, pmap in *. destruct (decide ((n, a) = (n', a'))) as [E|E].
+  - inversion E; subst. rewrite lookup_insert, !N.eqb_refl. done.
+  - rewrite lookup_insert_ne by done.
+    destruct (n' =? n)%N eqn:E1; [|done]. destruct (a' =? a)%N eqn:E2; [|done].
+    apply N.eqb_eq in E1, E2. subst. done.
+Qed.
+
+Definition inv_paid (p0 : pmap) (h : N) (pe : pmap) (un pa : N -> addr -> Z) : Prop :=
+  (forall n a, (h < n)%N -> pget pe n a = un n a + pget p0 n a) /\
+  (forall n a, (1 <= n <= h)%N -> pa n a = un n a + pget p0 n a) /\
+  (forall n a, (h < n)%N -> pa n a = 0).
+
+Lemma inv_begin p0 h pe un pa pa' :
+  inv_paid p0 h pe un pa ->
+  (forall n a, pa' n a = if (n =? h + 1)%N then pget pe (h + 1) a else pa n a) ->
+  inv_paid p0 (h + 1) (own_zero (h + 1) pe) un pa'.
+Proof.
+  intros (I1 & I2 & I3) Hpa. repeat split; intros n a Hn.
+  - rewrite pget_own_zero. destruct (n =? h + 1)%N eqn:E; [apply N.eqb_eq in E; lia|].
+    apply I1. lia.
+  - rewrite Hpa. destruct (n =? h + 1)%N eqn:E.
+    + apply N.eqb_eq in E. subst. apply I1. lia.
+    + apply N.eqb_neq in E. apply I2. lia.
+  - rewrite Hpa. destruct (n =? h + 1)%N eqn:E; [apply N.eqb_eq in E; lia|]. apply I3. lia.
+Qed.
+
+Lemma inv_add p0 h pe un pa k a amt :
+  inv_paid p0 h pe un pa -> (1 <= k)%N ->
+  inv_paid p0 h (<[(h + k, a)%N := pget pe (h + k) a + amt]> pe)
+           (fupd2 un (h + k) a (un (h + k)%N a + amt)) pa.
+Proof.
+  intros (I1 & I2 & I3) Hk. repeat split; intros n a' Hn.
+  - rewrite pget_insert. unfold fupd2.
+    destruct ((n =? h + k) && (a' =? a))%N eqn:E.
+    + apply andb_true_iff in E as [E1 E2]. apply N.eqb_eq in E1, E2. subst.
+      rewrite (I1 (h + k)%N a) by lia. lia.
+    + apply I1. lia.
+  - unfold fupd2. destruct (n =? h + k)%N eqn:E; [apply N.eqb_eq in E; lia|]. simpl. apply I2. lia.
+  - apply I3. lia.
+Qed.
+
+Definition inv_und (p0 : pmap) (s : st) : Prop := inv_paid p0 (height s) (pend s) (und s) (paid s).
+Definition inv_rwd (rp0 : pmap) (s : st) : Prop := inv_paid rp0 (height s) (rpend s) (rwd s) (rpaid s).
+
+Lemma charge_proj s0 s a fee :
+  let r := (charge s0 s a fee).1 in
+  r = s0 \/
+  (height r = height s /\ matk r = matk s /\ pend r = pend s /\ und r = und s /\ paid r = paid s /\
+   rpend r = rpend s /\ rwd r = rwd s /\ rpaid r = rpaid s /\ collided r = collided s /\
+   rew r = rew s /\ accrued r = accrued s /\ taken r = taken s).
+Proof.
+  destruct (charge_cases s0 s a fee) as [-> | ->]; [left; done|right]. simpl. repeat split.
+Qed.
+
+Lemma step_matk astr s o : matk (step astr s o).1 = matk s.
+Proof.
+  destruct o as [accr|a amt fee|a amt fee|a amt fee|a amt fee|a amt fee]; simpl.
+  - destruct (mature (scan_und astr) (height s + 1) (bal s) (pend s)) as [b1 p1].
+    destruct (mature (scan_rw astr) (height s + 1) b1 (rpend s)) as [b2 rp1]. reflexivity.
+  - destruct ((amt <? 0) || (bal s a - amt <? 0)); [reflexivity|].
+    match goal with |- context [charge ?s0 ?s1 ?a ?f] =>
+      destruct (charge_proj s0 s1 a f) as [-> | (_ & -> & _)] end; reflexivity.
+  - destruct ((aget (active s) a - amt <? 0) || (pool s - amt <? 0)); [reflexivity|].
+    match goal with |- context [charge ?s0 ?s1 ?a ?f] =>
+      destruct (charge_proj s0 s1 a f) as [-> | (_ & -> & _)] end; reflexivity.
+  - destruct (rew s a - amt <? 0); [reflexivity|].
+    match goal with |- context [charge ?s0 ?s1 ?a ?f] =>
+      destruct (charge_proj s0 s1 a f) as [-> | (_ & -> & _)] end; reflexivity.
+  - destruct (rew s a - amt <? 0); [reflexivity|].
+    match goal with |- context [charge ?s0 ?s1 ?a ?f] =>
+      destruct (charge_proj s0 s1 a f) as [-> | (_ & -> & _)] end; reflexivity.
+  - destruct (bal s a - amt <? 0); [reflexivity|].
+    match goal with |- context [charge ?s0 ?s1 ?a ?f] =>
+      destruct (charge_proj s0 s1 a f) as [-> | (_ & -> & _)] end; reflexivity.
+Qed.
+
+Lemma step_collided_mono astr s o : collided s = true -> collided (step astr s o).1 = true.
+Proof.
+  intros Hc.
+  destruct o as [accr|a amt fee|a amt fee|a amt fee|a amt fee|a amt fee]; simpl.
+  - destruct (mature (scan_und astr) (height s + 1) (bal s) (pend s)) as [b1 p1].
+    destruct (mature (scan_rw astr) (height s + 1) b1 (rpend s)) as [b2 rp1]. simpl. by rewrite Hc.
+  - destruct ((amt <? 0) || (bal s a - amt <? 0)); [done|].
+    match goal with |- context [charge ?s0 ?s1 ?a ?f] =>
+      destruct (charge_proj s0 s1 a f) as [-> | (_ & _ & _ & _ & _ & _ & _ & _ & -> & _)] end; done.
+  - destruct ((aget (active s) a - amt <? 0) || (pool s - amt <? 0)); [done|].
+    match goal with |- context [charge ?s0 ?s1 ?a ?f] =>
+      destruct (charge_proj s0 s1 a f) as [-> | (_ & _ & _ & _ & _ & _ & _ & _ & -> & _)] end; done.
+  - destruct (rew s a - amt <? 0); [done|].
+    match goal with |- context [charge ?s0 ?s1 ?a ?f] =>
+      destruct (charge_proj s0 s1 a f) as [-> | (_ & _ & _ & _ & _ & _ & _ & _ & -> & _)] end; done.
+  - destruct (rew s a - amt <? 0); [done|].
+    match goal with |- context [charge ?s0 ?s1 ?a ?f] =>
+      destruct (charge_proj s0 s1 a f) as [-> | (_ & _ & _ & _ & _ & _ & _ & _ & -> & _)] end; done.
+  - destruct (bal s a - amt <? 0); [done|].
+    match goal with |- context [charge ?s0 ?s1 ?a ?f] =>
+      destruct (charge_proj s0 s1 a f) as [-> | (_ & _ & _ & _ & _ & _ & _ & _ & -> & _)] end; done.
+Qed.
+
+Lemma run_collided_mono astr ops : forall s, collided s = true -> collided (run astr s ops) = true.
+Proof.
+  induction ops as [|o ops IH]; intros s H; [done|].
+  unfold run in *. simpl. apply IH. by apply step_collided_mono.
+Qed.
+
+(* one step preserves both maturity invariants as long as no scan collided *)
+Lemma step_inv astr p0 rp0 s o :
+  inv_und p0 s -> inv_rwd rp0 s -> (1 <= matk s)%N ->
+  collided (step astr s o).1 = false ->
+  inv_und p0 (step astr s o).1 /\ inv_rwd rp0 (step astr s o).1.
+Proof.
+  intros Iu Ir Hk.
+  destruct o as [accr|a amt fee|a amt fee|a amt fee|a amt fee|a amt fee]; simpl.
+  - destruct (collides (scan_und astr) (height s + 1) (pend s)) eqn:C1.
+    { destruct (mature (scan_und astr) (height s + 1) (bal s) (pend s)) as [b1 p1].
+      destruct (mature (scan_rw astr) (height s + 1) b1 (rpend s)) as [b2 rp1]. simpl.
+      rewrite orb_true_r. discriminate. }
+    destruct (collides (scan_rw astr) (height s + 1) (rpend s)) eqn:C2.
+    { destruct (mature (scan_und astr) (height s + 1) (bal s) (pend s)) as [b1 p1].
+      destruct (mature (scan_rw astr) (height s + 1) b1 (rpend s)) as [b2 rp1]. simpl.
+      rewrite orb_true_r. discriminate. }
+    rewrite (mature_nocoll _ _ _ _ C1). rewrite (mature_nocoll _ _ _ _ C2). simpl. intros _.
+    split; unfold inv_und, inv_rwd; simpl.
+    + apply (inv_begin _ _ _ _ (paid s)); [exact Iu|]. intros n a. destruct (n =? height s + 1)%N; lia.
+    + apply (inv_begin _ _ _ _ (rpaid s)); [exact Ir|]. intros n a. destruct (n =? height s + 1)%N; lia.
+  - destruct ((amt <? 0) || (bal s a - amt <? 0)); [done|].
+    match goal with |- context [charge ?s0 ?s1 ?a ?f] =>
+      destruct (charge_proj s0 s1 a f) as [-> | (E1 & E2 & E3 & E4 & E5 & E6 & E7 & E8 & _)] end; [done|].
+    intros _. unfold inv_und, inv_rwd. rewrite E1, E3, E4, E5, E6, E7, E8. simpl. done.
+  - destruct ((aget (active s) a - amt <? 0) || (pool s - amt <? 0)); [done|].
+    match goal with |- context [charge ?s0 ?s1 ?a ?f] =>
+      destruct (charge_proj s0 s1 a f) as [-> | (E1 & E2 & E3 & E4 & E5 & E6 & E7 & E8 & _)] end; [done|].
+    intros _. unfold inv_und, inv_rwd. rewrite E1, E3, E4, E5, E6, E7, E8. simpl. split; [|done].
+    by apply inv_add.
+  - destruct (rew s a - amt <? 0); [done|].
+    match goal with |- context [charge ?s0 ?s1 ?a ?f] =>
+      destruct (charge_proj s0 s1 a f) as [-> | (E1 & E2 & E3 & E4 & E5 & E6 & E7 & E8 & _)] end; [done|].
+    intros _. unfold inv_und, inv_rwd. rewrite E1, E3, E4, E5, E6, E7, E8. simpl. split; [done|].
+    by apply inv_add.
+  - destruct (rew s a - amt <? 0); [done|].
+    match goal with |- context [charge ?s0 ?s1 ?a ?f] =>
+      destruct (charge_proj s0 s1 a f) as [-> | (E1 & E2 & E3 & E4 & E5 & E6 & E7 & E8 & _)] end; [done|].
+    intros _. unfold inv_und, inv_rwd. rewrite E1, E3, E4, E5, E6, E7, E8. simpl. done.
+  - destruct (bal s a - amt <? 0); [done|].
+    match goal with |- context [charge ?s0 ?s1 ?a ?f] =>
+      destruct (charge_proj s0 s1 a f) as [-> | (E1 & E2 & E3 & E4 & E5 & E6 & E7 & E8 & _)] end; [done|].
+    intros _. unfold inv_und, inv_rwd. rewrite E1, E3, E4, E5, E6, E7, E8. simpl. done.
+Qed.
+
+Lemma run_inv astr p0 rp0 ops : forall s,
+  inv_und p0 s -> inv_rwd rp0 s -> (1 <= matk s)%N ->
+  collided (run astr s ops) = false ->
+  inv_und p0 (run astr s ops) /\ inv_rwd rp0 (run astr s ops).
+Proof.
+  induction ops as [|o ops IH]; intros s Iu Ir Hk Hc; [done|].
+  unfold run in *. simpl in *.
+  assert (Hs : collided (step astr s o).1 = false).
+  { destruct (collided (step astr s o).1) eqn:E; [|done].
+    pose proof (run_collided_mono astr ops _ E) as H. unfold run in H. congruence. }
+  destruct (step_inv astr p0 rp0 s o Iu Ir Hk Hs) as [Iu' Ir'].
+  apply IH; auto. by rewrite step_matk.
+Qed.
+
+Lemma inv_genesis k b pl ac pe rw rp :
+  inv_und pe (genesis k b pl ac pe rw rp) /\ inv_rwd rp (genesis k b pl ac pe rw rp).
+Proof. split; repeat split; simpl; intros; lia. Qed.
+
+(* C12_paid_once_at_maturity (partial: no scan collided).  For every genesis and history:
+   at every executed block n the maturation routine credited delegator a exactly the amount due
+   at n (genesis entry for (n,a) + the successful undelegations maturing at n), nothing is credited
+   for a height not yet reached, and what is not yet due is still pending. *)
+Lemma paid_once_partial astr k b pl ac pe rw rp ops :
+  (1 <= k)%N ->
+  let s0 := genesis k b pl ac pe rw rp in
+  let s := run astr s0 ops in
+  trig_collision astr s0 ops = false ->
+  forall n a,
+    ((1 <= n <= height s)%N -> paid s n a = und s n a + pget pe n a) /\
+    ((height s < n)%N -> paid s n a = 0 /\ pget (pend s) n a = und s n a + pget pe n a).
+Proof.
+  intros Hk s0 s Ht n a.
+  destruct (inv_genesis k b pl ac pe rw rp) as [Iu Ir].
+  destruct (run_inv astr pe rp ops s0 Iu Ir Hk Ht) as [(I1 & I2 & I3) _].
+  split; intros Hn; [by apply I2|]. split; [by apply I3 | by apply I1].
+Qed.
+
+Lemma rewards_paid_once_partial astr k b pl ac pe rw rp ops :
+  (1 <= k)%N ->
+  let s0 := genesis k b pl ac pe rw rp in
+  let s := run astr s0 ops in
+  trig_collision astr s0 ops = false ->
+  forall n a,
+    ((1 <= n <= height s)%N -> rpaid s n a = rwd s n a + pget rp n a) /\
+    ((height s < n)%N -> rpaid s n a = 0 /\ pget (rpend s) n a = rwd s n a + pget rp n a).
+Proof.
+  intros Hk s0 s Ht n a.
+  destruct (inv_genesis k b pl ac pe rw rp) as [Iu Ir].
+  destruct (run_inv astr pe rp ops s0 Iu Ir Hk Ht) as [_ (I1 & I2 & I3)].
+  split; intros Hn; [by apply I2|]. split; [by apply I3 | by apply I1].
+Qed.
+
+(* the credit a delegator receives in BeginBlock is exactly paid + rpaid of that block *)
+Lemma begin_credit astr s accr a :
+  let s' := (step astr s (Begin accr)).1 in
+  bal s' a - bal s a = paid s' (height s') a + rpaid s' (height s') a.
+Proof.
+  simpl.
+  destruct (mature (scan_und astr) (height s + 1) (bal s) (pend s)) as [b1 p1].
+  destruct (mature (scan_rw astr) (height s + 1) b1 (rpend s)) as [b2 rp1]. simpl.
+  rewrite N.eqb_refl. lia.
+Qed.
+
+(* ------------------------------------------------------------------ *)
+(* 3. reward withdrawals never exceed the accrued reward balance       *)
+(* ------------------------------------------------------------------ *)
+
+Lemma add_accr_diff l : forall f g a, add_accr f l a - add_accr g l a = f a - g a.
+Proof.
+  induction l as [|[a0 v] l IH]; intros f g a; [reflexivity|].
+  unfold add_accr in *. simpl. rewrite IH. unfold fupd. destruct (a =? a0)%N eqn:E; [|lia].
+  apply N.eqb_eq in E. subst. lia.
+Qed.
+
+Definition accr_nonneg (o : op) : bool :=
+  match o with Begin accr => forallb (fun x => 0 <=? x.2) accr | _ => true end.
+
+Lemma add_accr_nonneg l : forall f, (forall a, 0 <= f a) -> forallb (fun x => 0 <=? x.2) l = true ->
+  forall a, 0 <= add_accr f l a.
+Proof.
+  induction l as [|[a0 v] l IH]; intros f Hf Hl a; [apply Hf|].
+  simpl in Hl. apply andb_true_iff in Hl as [Hv Hl]. apply Z.leb_le in Hv.
+  unfold add_accr in *. simpl. apply IH; [|done].
+  intros x. unfold fupd. destruct (x =? a0)%N; [|apply Hf]. specialize (Hf a0). lia.
+Qed.
+
+Definition rbook (s : st) (a : addr) : Z := rew s a - accrued s a + taken s a.
+
+Lemma step_rewards astr s o a :
+  rbook (step astr s o).1 a = rbook s a /\
+  ((forall x, 0 <= rew s x) -> accr_nonneg o = true -> 0 <= rew (step astr s o).1 a).
+Proof.
+  unfold rbook.
+  destruct o as [accr|a0 amt fee|a0 amt fee|a0 amt fee|a0 amt fee|a0 amt fee]; simpl.
+  - destruct (mature (scan_und astr) (height s + 1) (bal s) (pend s)) as [b1 p1].
+    destruct (mature (scan_rw astr) (height s + 1) b1 (rpend s)) as [b2 rp1]. simpl. split.
+    + pose proof (add_accr_diff accr (rew s) (accrued s) a). lia.
+    + intros Hr Ha. by apply add_accr_nonneg.
+  - destruct ((amt <? 0) || (bal s a0 - amt <? 0)); [simpl; split; [lia|intros H _; apply H]|].
+    match goal with |- context [charge ?s0 ?s1 ?a ?f] =>
+      destruct (charge_proj s0 s1 a f) as [-> | (_ & _ & _ & _ & _ & _ & _ & _ & _ & -> & -> & ->)] end;
+      simpl; (split; [lia|intros H _; apply H]).
+  - destruct ((aget (active s) a0 - amt <? 0) || (pool s - amt <? 0)); [simpl; split; [lia|intros H _; apply H]|].
+    match goal with |- context [charge ?s0 ?s1 ?a ?f] =>
+      destruct (charge_proj s0 s1 a f) as [-> | (_ & _ & _ & _ & _ & _ & _ & _ & _ & -> & -> & ->)] end;
+      simpl; (split; [lia|intros H _; apply H]).
+  - destruct (rew s a0 - amt <? 0) eqn:Hlt; [simpl; split; [lia|intros H _; apply H]|].
+    apply Z.ltb_ge in Hlt.
+    match goal with |- context [charge ?s0 ?s1 ?a ?f] =>
+      destruct (charge_proj s0 s1 a f) as [-> | (_ & _ & _ & _ & _ & _ & _ & _ & _ & -> & -> & ->)] end;
+      simpl; [simpl; split; [lia|intros H _; apply H]|].
+    unfold fupd. destruct (a =? a0)%N eqn:E; [apply N.eqb_eq in E; subst|]; (split; [lia|intros H _; try apply H; lia]).
+  - destruct (rew s a0 - amt <? 0) eqn:Hlt; [simpl; split; [lia|intros H _; apply H]|].
+    apply Z.ltb_ge in Hlt.
+    match goal with |- context [charge ?s0 ?s1 ?a ?f] =>
+      destruct (charge_proj s0 s1 a f) as [-> | (_ & _ & _ & _ & _ & _ & _ & _ & _ & -> & -> & ->)] end;
+      simpl; [simpl; split; [lia|intros H _; apply H]|].
+    unfold fupd. destruct (a =? a0)%N eqn:E; [apply N.eqb_eq in E; subst|]; (split; [lia|intros H _; try apply H; lia]).
+  - destruct (bal s a0 - amt <? 0); [simpl; split; [lia|intros H _; apply H]|].
+    match goal with |- context [charge ?s0 ?s1 ?a ?f] =>
+      destruct (charge_proj s0 s1 a f) as [-> | (_ & _ & _ & _ & _ & _ & _ & _ & _ & -> & -> & ->)] end;
+      simpl; (split; [lia|intros H _; apply H]).
+Qed.
+
+Lemma run_rewards astr ops : forall s,
+  (forall a, rbook (run astr s ops) a = rbook s a) /\
+  ((forall x, 0 <= rew s x) -> forallb accr_nonneg ops = true -> forall a, 0 <= rew (run astr s ops) a).
+Proof.
+  induction ops as [|o ops IH]; intros s; [split; [done|intros H _; apply H]|].
+  unfold run in *. simpl. destruct (IH (step astr s o).1) as [IH1 IH2]. split.
+  - intros a. rewrite IH1. apply (step_rewards astr s o a).
+  - intros Hr Ha. apply andb_true_iff in Ha as [Ha1 Ha2]. apply IH2; [|done].
+    intros x. by apply (step_rewards astr s o x).
+Qed.
+
+(* for every genesis and history with non-negative accruals: the reward balance is
+   genesis + accrued - (withdrawn + reinvested), it is never negative, hence what has been
+   withdrawn or reinvested never exceeds what was there *)
+Lemma reward_withdrawal_bounded astr k b pl ac pe rw rp ops a :
+  let s := run astr (genesis k b pl ac pe rw rp) ops in
+  rew s a = rw a + accrued s a - taken s a /\
+  ((forall x, 0 <= rw x) -> forallb accr_nonneg ops = true ->
+   0 <= rew s a /\ taken s a <= rw a + accrued s a).
+Proof.
+  intros s. destruct (run_rewards astr ops (genesis k b pl ac pe rw rp)) as [H1 H2].
+  specialize (H1 a). unfold rbook in H1. simpl in H1. fold s in H1. split; [lia|].
+  intros Hr Ha. specialize (H2 Hr Ha a). fold s in H2. lia.
+Qed.
